@@ -1,4 +1,5 @@
 import SaoVerif.Proofs.Fixed
+import SaoVerif.Model.Step
 /-! Footprint lemmas, continued: Complete, Terminate, Renew, Migrate, permission, the timeout and expiry handlers. -/
 namespace SaoVerif
 
@@ -99,5 +100,390 @@ namespace SaoVerif
   split at h
   · cases h
   · exact saoCompleteBody_fixed _ _ _ _ _ _ _ _ h
+
+/-! ### Terminate -/
+@[grind →] theorem terminateLoop_fixed (e : Env) (l : List Nat) (s s' : State) (set set' : List Nat)
+    (h : saoTerminate.loop e l s set = .ok (s', set')) : fixedPart s' = fixedPart s := by
+  induction l generalizing s set with
+  | nil =>
+    unfold saoTerminate.loop at h
+    simp only [pure, Except.pure, Except.ok.injEq, Prod.mk.injEq] at h
+    rw [← h.1]
+  | cons oid t ih =>
+    unfold saoTerminate.loop at h
+    split at h
+    · exact ih _ _ h
+    · obtain ⟨v, hv, h⟩ := bind_ok h
+      rw [ih _ _ h, modelTerminateOrder_fixed _ _ _ _ _ (softTx_ok hv)]
+
+@[grind →] theorem saoTerminate_fixed (e : Env) (s s' : State) (c p : Addr) (ow : Did) (d : Bytes) (sv : Bool) (sd : Did)
+    (h : saoTerminate e s c p ow d sv sd = .ok s') : fixedPart s' = fixedPart s := by
+  unfold saoTerminate at h
+  dsimp only at h
+  split at h
+  · exact (throw_bind_ne h).elim
+  split at h
+  · exact (throw_bind_ne h).elim
+  split at h
+  · rename_i md hmd
+    split at h
+    · exact (throw_bind_ne h).elim
+    · obtain ⟨v, hv, h⟩ := bind_ok h
+      obtain ⟨s1, set⟩ := v
+      dsimp only at h
+      have := softTx'_ok h
+      rw [← this, deleteMeta_fixed, foldl_removeShard_fixed, terminateLoop_fixed _ _ _ _ _ _ hv]
+  · cases h
+
+/-! ### Renew -/
+theorem send_or_self_fixed (s : State) (a b : Addr) (x : Int) :
+    fixedPart (match s.send a b x with | .ok s' => s' | .error _ => s) = fixedPart s := by
+  split
+  · rename_i s' h; exact send_fixed _ _ _ _ _ h
+  · rfl
+
+theorem sendLit_or_self_fixed (s : State) (a b : Addr) (x : Int) :
+    fixedPart (match s.sendLit a b x with | .ok s' => s' | .error _ => s) = fixedPart s := by
+  split
+  · rename_i s' h; exact sendLit_fixed _ _ _ _ _ h
+  · rfl
+
+@[grind →] theorem renewShard_fixed (e : Env) (s s' : State) (sh : Shard) (oid dur : Nat) (up : Dec) (x : Int × Nat)
+    (h : renewShard e s sh oid dur up = .ok (s', x)) : fixedPart s' = fixedPart s := by
+  unfold renewShard at h
+  obtain ⟨np, _, h⟩ := bind_ok h
+  obtain ⟨v, hv, h⟩ := bind_ok h
+  obtain ⟨s1, sh1, chg⟩ := v
+  dsimp only at h
+  simp only [pure, Except.pure, Except.ok.injEq, Prod.mk.injEq] at h
+  rw [← h.1, setShard_fixed]
+  split at hv
+  · dsimp only at hv
+    split at hv
+    · rename_i pl hpl
+      simp only [pure, Except.pure, Except.ok.injEq, Prod.mk.injEq] at hv
+      rw [← hv.1, setPledge_fixed]
+      split
+      · exact send_or_self_fixed _ _ _ _
+      · rw [setDebt_fixed]; exact sendLit_or_self_fixed _ _ _ _
+    · cases hv
+  · simp only [pure, Except.pure, Except.ok.injEq, Prod.mk.injEq] at hv
+    rw [← hv.1]
+
+@[grind →] theorem renewLoop_fixed (e : Env) (dur : Nat) (newO : Order) (l : List Shard) (s s' : State) (chg : Int) (mx : Nat) (x : Int × Nat)
+    (h : renewBody.loop e dur newO l s chg mx = .ok (s', x)) : fixedPart s' = fixedPart s := by
+  induction l generalizing s chg mx with
+  | nil =>
+    unfold renewBody.loop at h
+    simp only [pure, Except.pure, Except.ok.injEq, Prod.mk.injEq] at h
+    rw [← h.1]
+  | cons sh t ih =>
+    unfold renewBody.loop at h
+    split at h
+    · exact ih _ _ _ h
+    · obtain ⟨v, hv, h⟩ := bind_ok h
+      obtain ⟨s1, c, ex⟩ := v
+      dsimp only at h
+      rw [ih _ _ _ h, renewShard_fixed _ _ _ _ _ _ _ _ hv]
+
+@[grind →] theorem renewBody_fixed (e : Env) (s s' : State) (pool : Pool) (c p : Addr) (dur : Nat) (to : Int) (md : Metadata) (o : Order)
+    (shs : List Shard) (x : Pool × Bool) (h : renewBody e s pool c p dur to md o shs = .ok (s', x)) : fixedPart s' = fixedPart s := by
+  unfold renewBody at h
+  obtain ⟨amount, _, h⟩ := bind_ok h
+  dsimp only at h
+  split at h
+  · -- the charge failed: this data id is skipped, the state is what renewOrder returned
+    simp only [pure, Except.pure, Except.ok.injEq, Prod.mk.injEq] at h
+    rw [← h.1, renewOrder_fixed]
+  · obtain ⟨v, hv, h⟩ := bind_ok h
+    obtain ⟨s1, c1, mx⟩ := v
+    dsimp only at h
+    obtain ⟨s2, hs2, h⟩ := bind_ok h
+    obtain ⟨v3, hv3, h⟩ := bind_ok h
+    obtain ⟨s3, er⟩ := v3
+    simp only [pure, Except.pure, Except.ok.injEq, Prod.mk.injEq] at h
+    rw [← h.1, updateMeta_fixed _ _ _ _ _ hv3, extendMetaDuration_fixed _ _ _ _ hs2, renewLoop_fixed _ _ _ _ _ _ _ _ _ hv, renewOrder_fixed]
+
+@[grind →] theorem renewOne_fixed (e : Env) (s s' : State) (pool : Pool) (c p : Addr) (sd : Did) (dur : Nat) (to : Int) (d : Bytes)
+    (x : Pool × Bool) (h : renewOne e s pool c p sd dur to d = .ok (s', x)) : fixedPart s' = fixedPart s := by
+  unfold renewOne at h
+  split at h
+  · simp only [pure, Except.pure, Except.ok.injEq, Prod.mk.injEq] at h; rw [← h.1]
+  · exact renewBody_fixed _ _ _ _ _ _ _ _ _ _ _ _ h
+
+@[grind →] theorem saoRenewLoop_fixed (e : Env) (c p : Addr) (sd : Did) (dur : Nat) (to : Int) (l : List Bytes) (s s' : State) (pool : Pool)
+    (oks oks' : List Bool) (h : saoRenew.loop e c p sd dur to l s pool oks = .ok (s', oks')) : fixedPart s' = fixedPart s := by
+  induction l generalizing s pool oks with
+  | nil =>
+    unfold saoRenew.loop at h
+    simp only [pure, Except.pure, Except.ok.injEq, Prod.mk.injEq] at h
+    rw [← h.1]
+  | cons d t ih =>
+    unfold saoRenew.loop at h
+    obtain ⟨v, hv, h⟩ := bind_ok h
+    obtain ⟨s1, pool1, ok⟩ := v
+    dsimp only at h
+    rw [ih _ _ _ h, renewOne_fixed _ _ _ _ _ _ _ _ _ _ _ hv]
+
+@[grind →] theorem saoRenew_fixed (e : Env) (s s' : State) (c p : Addr) (sv : Bool) (sd : Did) (dur : Nat) (to : Int) (data : List Bytes)
+    (oks : List Bool) (h : saoRenew e s c p sv sd dur to data = .ok (s', oks)) : fixedPart s' = fixedPart s := by
+  unfold saoRenew at h
+  dsimp only at h
+  split at h
+  · exact (throw_bind_ne h).elim
+  split at h
+  · exact (throw_bind_ne h).elim
+  split at h
+  · exact (throw_bind_ne h).elim
+  split at h
+  · exact (throw_bind_ne h).elim
+  split at h
+  · exact saoRenewLoop_fixed _ _ _ _ _ _ _ _ _ _ _ _ h
+  · cases h
+
+/-! ### Migrate -/
+@[grind →] theorem migrateOrderLoop_fixed (s0 : State) (p : Addr) (l : List Nat) (commits : List Bytes) (st s' : State)
+    (h : migrateOrderLoop s0 p l commits st = .ok s') : fixedPart s' = fixedPart st := by
+  induction l generalizing commits st with
+  | nil =>
+    unfold migrateOrderLoop at h
+    simp only [pure, Except.pure, Except.ok.injEq] at h
+    rw [← h]
+  | cons oid t ih =>
+    unfold migrateOrderLoop at h
+    split at h
+    · exact ih _ _ h
+    · split at h
+      · exact ih _ _ h
+      · (try dsimp only at h)
+        split at h
+        · exact ih _ _ h
+        · split at h
+          · exact ih _ _ h
+          · (try dsimp only at h)
+            split at h
+            · exact ih _ _ h
+            · obtain ⟨v, hv, h⟩ := bind_ok h
+              obtain ⟨st1, sps⟩ := v
+              dsimp only at h
+              split at h
+              · rw [ih _ _ h, randomSP_fixed _ _ _ _ _ _ hv]
+              · rw [ih _ _ h, setOrder_fixed, appendShard_fixed, randomSP_fixed _ _ _ _ _ _ hv]
+
+@[grind →] theorem saoMigrateLoop_fixed (s0 : State) (p : Addr) (l : List Bytes) (st s' : State)
+    (h : saoMigrate.loop s0 p l st = .ok s') : fixedPart s' = fixedPart st := by
+  induction l generalizing st with
+  | nil =>
+    unfold saoMigrate.loop at h
+    simp only [pure, Except.pure, Except.ok.injEq] at h
+    rw [← h]
+  | cons d t ih =>
+    unfold saoMigrate.loop at h
+    split at h
+    · exact ih _ h
+    · obtain ⟨v, hv, h⟩ := bind_ok h
+      rw [ih _ h, migrateOrderLoop_fixed _ _ _ _ _ _ hv]
+
+@[grind →] theorem saoMigrate_fixed (s s' : State) (c p : Addr) (data : List Bytes) (h : saoMigrate s c p data = .ok s') :
+    fixedPart s' = fixedPart s := by
+  unfold saoMigrate at h
+  split at h
+  · exact (throw_bind_ne h).elim
+  · exact saoMigrateLoop_fixed _ _ _ _ _ h
+
+/-! ### permission, timeout and expiry handlers -/
+@[grind →] theorem saoPermission_fixed (s s' : State) (c p : Addr) (ow : Did) (d : Bytes) (ro rw : List Did) (sv : Bool)
+    (h : saoPermission s c p ow d ro rw sv = .ok s') : fixedPart s' = fixedPart s := by
+  unfold saoPermission at h
+  dsimp only at h
+  split at h
+  · exact (throw_bind_ne h).elim
+  split at h
+  · exact (throw_bind_ne h).elim
+  split at h
+  · exact (throw_bind_ne h).elim
+  split at h
+  · exact (throw_bind_ne h).elim
+  have := softTx'_ok h
+  rw [← this, updatePermission_fixed]
+
+@[grind =] theorem timeoutSettle_fixed (s : State) (o : Order) (v : TimeoutView) : fixedPart (timeoutSettle s o v) = fixedPart s := by
+  unfold timeoutSettle
+  dsimp only
+  split
+  · rw [setOrder_fixed, foldl_removeShard_fixed]
+  · rw [foldl_removeShard_fixed]
+
+@[grind →] theorem timeoutGiveUp_fixed (e : Env) (s s' : State) (o : Order) (v : TimeoutView) (oid : Nat)
+    (h : timeoutGiveUp e s o v oid = .ok s') : fixedPart s' = fixedPart s := by
+  unfold timeoutGiveUp at h
+  split at h
+  · obtain ⟨x, hx, h⟩ := bind_ok h
+    obtain ⟨s1, er⟩ := x
+    simp only [pure, Except.pure, Except.ok.injEq] at h
+    rw [← h, cancelOrder_fixed _ _ _ _ _ hx, foldl_removeShard_fixed]
+  · dsimp only at h
+    split at h
+    · cases h
+    · split at h
+      · split at h
+        · cases h
+        · simp only [pure, Except.pure, Except.ok.injEq] at h
+          rw [← h, setOrder_fixed]
+          split
+          · split
+            · rename_i s2 hs2; rw [send_fixed _ _ _ _ _ hs2, foldl_removeShard_fixed]
+            · rw [foldl_removeShard_fixed]
+          · rw [foldl_removeShard_fixed]
+      · simp only [pure, Except.pure, Except.ok.injEq] at h
+        rw [← h, setOrder_fixed, foldl_removeShard_fixed]
+
+@[grind →] theorem timeoutReassign_fixed (s s' : State) (o : Order) (v : TimeoutView) (sps : List Node)
+    (h : timeoutReassign s o v sps = .ok s') : fixedPart s' = fixedPart s := by
+  unfold timeoutReassign at h
+  split at h
+  · cases h
+  · dsimp only at h
+    simp only [pure, Except.pure, Except.ok.injEq] at h
+    rw [← h, setTimeoutOrderBlock_fixed, setOrder_fixed]
+    have gen : ∀ (l : List (Node × Shard)) (acc : Order × State),
+        fixedPart (l.foldl (fun (acc : Order × State) (x : Node × Shard) =>
+          let s := acc.2.setShard { x.2 with status := ShardTimeout }
+          let (nsh, s) := newShardTask s acc.1 x.1.creator
+          ({ acc.1 with shards := acc.1.shards ++ [nsh.id] }, s)) acc).2 = fixedPart acc.2 := by
+      intro l
+      induction l with
+      | nil => intro acc; rfl
+      | cons a t ih => intro acc; simp only [List.foldl_cons]; rw [ih]; rfl
+    exact gen _ (o, s)
+
+@[grind →] theorem handleTimeoutOrder_fixed (e : Env) (s s' : State) (oid : Nat) (h : handleTimeoutOrder e s oid = .ok s') :
+    fixedPart s' = fixedPart s := by
+  unfold handleTimeoutOrder at h
+  split at h
+  · simp only [pure, Except.pure, Except.ok.injEq] at h; rw [← h]
+  · split at h
+    · split at h
+      · rename_i s1 x hc
+        simp only [pure, Except.pure, Except.ok.injEq] at h
+        rw [← h]; exact cancelOrder_fixed _ _ _ _ _ hc
+      · cases h
+    · dsimp only at h
+      split at h
+      · simp only [pure, Except.pure, Except.ok.injEq] at h; rw [← h, timeoutSettle_fixed]
+      · split at h
+        · cases h
+        · rename_i s1 sps hsel
+          have hs1 : fixedPart s1 = fixedPart s := by
+            split at hsel
+            · simp only [pure, Except.pure, Except.ok.injEq, Prod.mk.injEq] at hsel; rw [← hsel.1]
+            · exact randomSP_fixed _ _ _ _ _ _ hsel
+          split at h
+          · split at h
+            · rw [timeoutGiveUp_fixed _ _ _ _ _ _ h, hs1]
+            · simp only [pure, Except.pure, Except.ok.injEq] at h; rw [← h, setTimeoutOrderBlock_fixed, hs1]
+          · rw [timeoutReassign_fixed _ _ _ _ _ h, hs1]
+
+@[grind →] theorem handleExpiredShard_fixed (e : Env) (s s' : State) (id : Nat) (h : handleExpiredShard e s id = .ok s') :
+    fixedPart s' = fixedPart s := by
+  unfold handleExpiredShard at h
+  split at h
+  · rename_i sh hsh
+    split at h
+    · rename_i o ho
+      dsimp only at h
+      obtain ⟨v, hv, h⟩ := bind_ok h
+      have hv' : fixedPart v = fixedPart s := by
+        split at hv
+        · obtain ⟨x, hx, hv⟩ := bind_ok hv
+          obtain ⟨s1, er⟩ := x
+          simp only [pure, Except.pure, Except.ok.injEq] at hv
+          rw [← hv, removeShard_fixed, shardRelease_fixed _ _ _ _ _ _ hx, workerRelease_fixed]
+        · simp only [pure, Except.pure, Except.ok.injEq] at hv
+          rw [← hv, workerAppend_fixed, setShard_fixed, setExpiredShardBlock_fixed, workerRelease_fixed]
+      split at h
+      · split at h
+        · simp only [pure, Except.pure, Except.ok.injEq] at h; rw [← h, removeOrder_fixed, hv']
+        · simp only [pure, Except.pure, Except.ok.injEq] at h; rw [← h, hv']
+      · simp only [pure, Except.pure, Except.ok.injEq] at h; rw [← h, setOrder_fixed, hv']
+    · simp only [pure, Except.pure, Except.ok.injEq] at h; rw [← h]
+  · simp only [pure, Except.pure, Except.ok.injEq] at h; rw [← h]
+
+/-! ### end-blockers -/
+theorem foldlM_fixed {α : Type} (f : State → α → TxM State) (hf : ∀ s a s', f s a = .ok s' → fixedPart s' = fixedPart s)
+    (l : List α) (s s' : State) (h : l.foldlM f s = .ok s') : fixedPart s' = fixedPart s := by
+  induction l generalizing s with
+  | nil => simp only [List.foldlM, pure, Except.pure, Except.ok.injEq] at h; rw [← h]
+  | cons a t ih =>
+    simp only [List.foldlM] at h
+    obtain ⟨v, hv, h⟩ := bind_ok h
+    rw [ih _ h, hf _ _ _ hv]
+
+@[grind =] theorem nodeEndBlock_fixed (s : State) : fixedPart (nodeEndBlock s) = fixedPart s := rfl
+
+@[grind =] theorem modelEndBlock_fixed (s : State) : fixedPart (modelEndBlock s) = fixedPart s := by
+  unfold modelEndBlock
+  dsimp only
+  split
+  · rfl
+  · show fixedPart (List.foldl _ s _) = fixedPart s
+    apply foldl_fixed
+    intro s a
+    repeat' split
+    all_goals (first | rfl | exact deleteMeta_fixed _ _)
+
+@[grind →] theorem saoEndBlock_fixed (e : Env) (s s' : State) (h : saoEndBlock e s = .ok s') : fixedPart s' = fixedPart s := by
+  unfold saoEndBlock at h
+  dsimp only at h
+  obtain ⟨v, hv, h⟩ := bind_ok h
+  have hv' : fixedPart v = fixedPart s := by
+    split at hv
+    · obtain ⟨w, hw, hv⟩ := bind_ok hv
+      simp only [pure, Except.pure, Except.ok.injEq] at hv
+      rw [← hv]
+      have := foldlM_fixed _ (fun s a s' h => handleTimeoutOrder_fixed e s s' a h) _ _ _ hw
+      rw [← this]; rfl
+    · simp only [pure, Except.pure, Except.ok.injEq] at hv; rw [← hv]
+  split at h
+  · obtain ⟨w, hw, h⟩ := bind_ok h
+    simp only [pure, Except.pure, Except.ok.injEq] at h
+    rw [← h]
+    have := foldlM_fixed _ (fun s a s' h => handleExpiredShard_fixed e s s' a h) _ _ _ hw
+    rw [← hv', ← this]; rfl
+  · simp only [pure, Except.pure, Except.ok.injEq] at h; rw [← h, hv']
+
+@[grind →] theorem endBlock_fixed (e : Env) (s s' : State) (h : endBlock e s = .ok s') : fixedPart s' = fixedPart s := by
+  unfold endBlock at h
+  obtain ⟨v, hv, h⟩ := bind_ok h
+  simp only [pure, Except.pure, Except.ok.injEq] at h
+  rw [← h, modelEndBlock_fixed, nodeEndBlock_fixed, saoEndBlock_fixed _ _ _ hv]
+
+/-! ### Store -/
+@[grind →] theorem storePlace_fixed (e : Env) (s s' : State) (m : StoreMsg) (o : Order) (pa : Option Addr) (ip : Bool) (a b : Bytes)
+    (h : storePlace e s m o pa ip a b = .ok s') : fixedPart s' = fixedPart s := by
+  unfold storePlace at h
+  (try dsimp only at h)
+  obtain ⟨v, hv, h⟩ := bind_ok h
+  obtain ⟨s1, sps⟩ := v
+  (try dsimp only at h)
+  obtain ⟨amount, _, h⟩ := bind_ok h
+  obtain ⟨payer, _, h⟩ := bind_ok h
+  split at h
+  · exact (throw_bind_ne h).elim
+  obtain ⟨s2, hs2, h⟩ := bind_ok h
+  (try dsimp only at h)
+  have hs1 : fixedPart s1 = fixedPart s := by
+    split at hv
+    · exact getSps_fixed _ _ _ _ _ hv
+    · simp only [pure, Except.pure, Except.ok.injEq, Prod.mk.injEq] at hv; rw [← hv.1]
+  rw [storeAttach_fixed _ _ _ _ _ _ h]
+  split
+  · rw [setTimeoutOrderBlock_fixed, newOrder_fixed, sendLit_fixed _ _ _ _ _ hs2, hs1]
+  · rw [newOrder_fixed, sendLit_fixed _ _ _ _ _ hs2, hs1]
+
+@[grind →] theorem saoStore_fixed (e : Env) (s s' : State) (m : StoreMsg) (h : saoStore e s m = .ok s') : fixedPart s' = fixedPart s := by
+  unfold saoStore at h
+  obtain ⟨g, _, h⟩ := bind_ok h
+  exact storePlace_fixed _ _ _ _ _ _ _ _ _ h
 
 end SaoVerif
